@@ -654,6 +654,9 @@ func (g *gen) verifyCase(kind string) {
 		g.amb++
 		return
 	}
+	if os.Getenv("VERIF_SELFTEST") != "" && g.w.Len() == 7 {
+		obs = "(OVerify (Reject EOther))" // harness self-test: a wrong observation must be flagged
+	}
 	in := emit.Ctor("IVerify", kindCoq, v.Coq(), s.ks.Coq(), t.Coq(), m.Coq(), emit.Z(t0), emit.Z(t1))
 	tags := []string{"kind=verify", "v=" + kind, "mut=" + mut, "ks=" + s.ksKind, "keys=" + s.scenName, "alg=" + s.alg, "claims=" + claimMut, "kidhdr=" + tagStr(s.kid)}
 	if mut == "payload_null" {
